@@ -185,6 +185,39 @@ def check(prog, rep, tier):
     else:
         rep.ok('R20.b', 'stale-handle', file=w.file, line=w.node.lineno, found='replacers: %s' % sorted(replacers))
 
+    # the keys under which the per-peer tables are filled are lower-cased too (readers look up peer.lower())
+    for mname, mf in sorted(cls.methods.items()):
+        for n in ast.walk(mf.node):
+            if not (isinstance(n, ast.Assign) and any(
+                    isinstance(t, ast.Subscript) and src_of(t.value) in ('self.peer_files', 'self.msg_sequence')
+                    for t in n.targets)):
+                continue
+            t = [t for t in n.targets if isinstance(t, ast.Subscript)][0]
+            ktxt = common.unalias(mf.node, t.slice)
+            key = 'peer-key-store:%s:%s' % (mname, src_of(t.value).split('.')[-1])
+            ok = ktxt.endswith('.lower()')
+            why = 'stored under %s' % ktxt
+            if not ok and isinstance(t.slice, ast.Name) and t.slice.id in mf.params:
+                # a parameter: every caller inside the class passes a lower-cased address
+                idx = mf.params.index(t.slice.id) - 1
+                calls = [c for m2 in cls.methods.values() for c in ast.walk(m2.node)
+                         if isinstance(c, ast.Call) and src_of(c.func) == 'self.%s' % mname]
+                args = []
+                for c in calls:
+                    a = c.args[idx] if idx < len(c.args) else next(
+                        (k.value for k in c.keywords if k.arg == t.slice.id), None)
+                    args.append(src_of(a) if a is not None else None)
+                ok = bool(calls) and all(a is not None and a.endswith('.lower()') for a in args)
+                why = 'stored under the parameter %s, callers pass %s' % (t.slice.id, args)
+            if ok:
+                if not any(i.key == key for i in rep.instances):
+                    rep.ok('R20.b', key, file=mf.file, line=n.lineno)
+            else:
+                rep.bad('R20.b', key, file=mf.file, line=n.lineno, func=mf.qualname,
+                        found='%s: write_msg / check_file_size look the peer up with peer.lower(), so a peer address '
+                              'with an upper-case character never finds its file and nothing is written' % why,
+                        expected='the same lower-cased key on the storing side', key=key)
+
     # every access to the per-peer tables inside write_msg / check_file_size uses the same key
     for fn in (w, cls.find_method('check_file_size')):
         peerp = fn.params[1] if len(fn.params) > 1 else 'peer'
@@ -273,6 +306,20 @@ def check(prog, rep, tier):
             for n in ast.walk(ast.Module(body=h.body, type_ignores=[])):
                 if isinstance(n, ast.Raise):
                     raises.append(n)
+    # lines in the old list format are Python literals (None, tuples, single quotes), not JSON
+    legacy = [n for n in ast.walk(g.node) if isinstance(n, ast.If) and "startswith('[')" in src_of(n.test)]
+    if legacy:
+        body_txt = ' '.join(src_of(b) for b in legacy[0].body)
+        if 'eval(' in body_txt or 'literal_eval(' in body_txt:
+            rep.ok('R20.d', 'legacy-format-reader', file=g.file, line=legacy[0].lineno)
+        else:
+            rep.bad('R20.d', 'legacy-format-reader', file=g.file, line=legacy[0].lineno, func=g.qualname,
+                    found='a last line in the old list format is read with %s: such lines are Python literals '
+                          '(None, tuples, single-quoted strings), the reader raises and the agent exits' % body_txt[:60],
+                    expected='eval / ast.literal_eval for the list format', key='legacy-format-reader')
+    else:
+        rep.undecided('R20.d', 'legacy-format-reader', file=g.file, line=g.node.lineno,
+                      found="no branch for lines starting with '['")
     if exits or raises:
         n = (exits + raises)[0]
         rep.bad('R20.d', 'recovery-exit', file=g.file, line=n.lineno, func=g.qualname,
